@@ -173,3 +173,14 @@ prop("C09",
           "chunks (paced: of which >= 1 had to wait); distinct by hash of the case.",
      quick=dict(shards=2, timeout=400), thorough=dict(shards=16, timeout=1500),
      assumptions=COMMON + ["timing is judged one-sided (a chunk may be late, never early); no upper latency bound is asserted"])
+
+prop("C15",
+     rule="rapid draws a vod root (1-2 bundled assets, 0-2 generated layouts, 0-2 inadmissible layouts: loop not a whole number of ms, or two video "
+          "representations disagreeing in duration), a separate or shared metadata root, 0-3 damages of cache files (absent, plain JSON instead "
+          "of gzip, truncated gzip, garbage, valid JSON of the wrong schema, empty file, trailing junk) and three instants. Three servers are "
+          "started: scanning, writing (twice: files must be byte-identical), cache-loaded. Every MPD (3 types), init, newest media segment of "
+          "every representation (plus ClearKey init/segment) and /assets are compared between the scanning and the cache-loaded server: "
+          "identical status/content-type/body, or 404 for an asset whose cache is damaged, or the server refuses to start; inadmissible assets "
+          "are served by no server; the cache-loaded SegmentTimelines over two loops are contiguous. Non-trivial = a case with a damaged "
+          "cache file or an inadmissible asset; distinct by hash of the case.",
+     quick=dict(shards=4, timeout=400), thorough=dict(shards=16, timeout=1500), assumptions=COMMON)
